@@ -20,7 +20,15 @@ def _guarded(fn, item):
     from .interp import StepLimit
 
     try:
-        return fn(item)
+        r = fn(item)
+        if isinstance(r, dict):
+            from . import engine
+
+            entered = set()
+            for it, _w in engine._CACHE.values():
+                entered.update("%s.%s" % me for me in it.functions_entered)
+            r["__entered__"] = sorted(entered)
+        return r
     except Unsupported as e:
         return {"__unsupported__": "unmodelled construct: %s" % e}
     except StepLimit as e:
@@ -74,6 +82,8 @@ class Ctx(object):
                 if msg not in self.errors and len(self.errors) < 20:
                     self.errors.append(msg)
                 continue
+            if isinstance(r, dict) and "__entered__" in r:
+                self.ev.interpreted.update(r.pop("__entered__"))
             out.append((it, r))
         return out
 
